@@ -456,7 +456,8 @@ def obligations(F, rep, rule="OBLIGATION"):
         need(rep, rule, "expression|Call|param~arg", facts, (r"bound:params\[\*\].*|bound:.*\[\*\].*", r"exprof:args\[\*\].*"),
              "every argument is unified with its parameter type", line_of(arm), allow_cond=True)
         # arity comparison -> Err(WrongArity); non-function callee -> Err
-        inner = [m for m in nodes(arm["body"], "Match") if "sylt_compiler::ty::Type" in m.get("scrut_ty", "")]
+        inner = [m for m in nodes(arm["body"], "Match") if "sylt_compiler::ty::Type" in m.get("scrut_ty", "") and
+                 "matches" not in (m.get("mac") or [])]
         arity = False
         for i in nodes(arm["body"], "If"):
             c = pp(i["c"])
